@@ -13,7 +13,8 @@ SPEC = dict(
          'response stream and of the request stream, would-block variants, server answering at once or after the last request; flt = one fault (peer close, ECONNRESET, EPIPE, EINTR, would-block) at every byte '
          'offset of input and of output, peer close/reset while a request is half written, connect refused / POLLHUP / poll error / EINTR / pending k polls / never completing (virtual clock), '
          'each followed by two later requests; blk = blocking client through KSI_Signature_signAggregated: every 1-cut (and 2-cuts) of request and response, EINTR, close / reset / timeout at every '
-         'offset, connect refused / interrupted / timed out, each followed by a second request. Distinct = case name; every case reaches an oracle comparison.',
+         'offset, connect refused / interrupted / timed out, each followed by a second request. Distinct = case name; every case reaches an oracle comparison. '
+         'Further parts: opt (transfer time-out setters reach the socket), blkraw (the blocking reader hands up 12 PDU shapes x 4 chunkings unchanged), flt:conn2 (the connection after a served and closed one is refused / hangs up / never comes up).',
     bounds=dict(
         quick='rx: every composition (2^(n-1)) of all streams <= 10 bytes, with and without would-block at every boundary, full ternary codes <= 7 bytes; longer streams of 1..2 PDUs: every 1-cut for single PDUs '
               '< 65539 bytes, cuts at PDU/header/receive-capacity boundaries +-1 and their pairs otherwise; tx: request batches <= 7 bytes, all ternary codes; e2e: every 1-cut, every 2-cut of one response, '
